@@ -25,6 +25,7 @@ import h2.connection
 import h2.errors
 import h2.events
 import h2.exceptions
+import h2.settings
 import priority
 
 from twisted.internet._producer_helpers import _PullToPush
@@ -181,6 +182,8 @@ class H2Connection(Protocol, TimeoutMixin):
                 self._requestAborted(event)
             elif isinstance(event, h2.events.WindowUpdated):
                 self._handleWindowUpdate(event)
+            elif isinstance(event, h2.events.RemoteSettingsChanged):
+                self._handleSettingsChange(event)
             elif isinstance(event, h2.events.PriorityUpdated):
                 self._handlePriorityUpdate(event)
             elif isinstance(event, h2.events.ConnectionTerminated):
@@ -393,7 +396,10 @@ class H2Connection(Protocol, TimeoutMixin):
 
         remainingWindow = self.conn.local_flow_control_window(stream)
         frameData = self._outboundStreamQueues[stream].popleft()
-        maxFrameSize = min(self.conn.max_outbound_frame_size, remainingWindow)
+        # The window can be negative (the peer may lower
+        # SETTINGS_INITIAL_WINDOW_SIZE below what we have already sent): a
+        # negative size must not be used as a slice index.
+        maxFrameSize = max(0, min(self.conn.max_outbound_frame_size, remainingWindow))
 
         if frameData is _END_STREAM_SENTINEL:
             # There's no error handling here even though this can throw
@@ -676,14 +682,51 @@ class H2Connection(Protocol, TimeoutMixin):
             if self._outboundStreamQueues.get(streamID):
                 self.priority.unblock(streamID)
             self.streams[streamID].windowUpdated()
+            self._wakeSendingLoop()
         else:
             # Update strictly applies to all streams.
-            for stream in self.streams.values():
-                stream.windowUpdated()
+            self._windowsChanged()
 
-                # If we still have data to send for this stream, unblock it.
-                if self._outboundStreamQueues.get(stream.streamID):
-                    self.priority.unblock(stream.streamID)
+    def _handleSettingsChange(self, event):
+        """
+        Handle a change of the peer's settings.
+
+        A change of C{SETTINGS_INITIAL_WINDOW_SIZE} changes the flow control
+        window of every stream, so streams that were blocked on flow control
+        may be able to continue.
+
+        @param event: The Hyper-h2 event that encodes information about the
+            settings change.
+        @type event: L{h2.events.RemoteSettingsChanged}
+        """
+        if h2.settings.SettingCodes.INITIAL_WINDOW_SIZE in event.changed_settings:
+            self._windowsChanged()
+
+    def _windowsChanged(self):
+        """
+        The flow control window of every stream may have been opened: tell the
+        streams, unblock those that have data to send, and restart the data
+        sending loop if it is waiting for a stream to become unblocked.
+        """
+        # The streams may complete (and be removed) while we do this.
+        for stream in list(self.streams.values()):
+            stream.windowUpdated()
+
+            # If we still have data to send for this stream, unblock it.
+            if self._outboundStreamQueues.get(stream.streamID):
+                self.priority.unblock(stream.streamID)
+
+        self._wakeSendingLoop()
+
+    def _wakeSendingLoop(self):
+        """
+        If the data sending loop is waiting for a stream to become unblocked,
+        run it again.
+        """
+        if self._sendingDeferred is not None:
+            d = self._sendingDeferred
+            self._sendingDeferred = None
+            d.callback(None)
 
     def getPeer(self):
         """
